@@ -20,6 +20,7 @@ func init() {
 			"R3 only channel methods enqueue, and transport Write/Writev/Flush are invoked only by the sender or on the queue==nil branch of channel methods (no codec/handler writes to the transport directly); " +
 			"R4 in the sender every dequeued packet is appended (in receive order) to the batch that is the argument of the next transport.Writev, and no path drops the batch; " +
 			"R5 every synchronous-branch transport write and its flush run under the write lock released by defer; R6 sibling enqueueing functions have the same select shapes. " +
+			"ALSO: callers of the enqueuing function return that call's error and none of their own once the packet is queued; imports are listed in RULES.md. " +
 			"DOES NOT DECIDE: byte equality of the queued packet with the caller's payload, merge offsets in the vectored path, FIFO-ness of Go channels, the linearisation claim as a whole; no schedule is executed or explored.",
 		Assumptions: []string{"Executor.Exec eventually runs its action", "Go channels are FIFO; CAS is atomic"},
 		Run:         runC01,
